@@ -152,8 +152,16 @@ def pipeline(ctx, vh, cases, impl):
     idxs = sorted(set(special[:400] + rng.sample(range(len(cases)), min(len(cases), 300 if ctx.tier != "thorough" else 3000))))
     idxs = [i for i in idxs if "\x00" not in cases[i] and "\n" not in cases[i] and "\r" not in cases[i]]
     docs = []
-    for i in idxs:
-        docs.append("import qmluic.QtWidgets\nQWidget { QColorDialog { id: d; currentColor: %s } QGraphicsView { id: v; backgroundBrush: %s } }\n" % (prog.qml_str(cases[i]), prog.qml_str(cases[i])))
+    styles = ["Qt.SolidPattern", "Qt.NoBrush", "Qt.Dense4Pattern", "Qt.CrossPattern", None]
+    for k, i in enumerate(idxs):
+        q = prog.qml_str(cases[i])
+        st, st2 = styles[k % 5], styles[(k // 5 + 1) % 5]
+        # every place a colour string is read: a colour property, a brush given as a string, a brush given as a map (with every style, also the empty one: Qt keeps
+        # the colour of such a brush), palette roles given as a string and as a map
+        docs.append("import qmluic.QtWidgets\nQWidget {\n QColorDialog { id: d; currentColor: %s }\n QGraphicsView { id: v; backgroundBrush: %s\n foregroundBrush {\n color: %s\n%s }\n }\n"
+                    " QLabel { id: l; palette.window: %s\n palette.active.text {\n color: %s\n%s }\n }\n}\n"
+                    % (q, q, q, "" if st is None else " style: %s\n" % st, q, q, "" if st2 is None else " style: %s\n" % st2))
+    NCOL = 7      # currentColor, backgroundBrush, foregroundBrush, palette.window in three groups, palette.active.text
     res = qml.run_docs(vh, docs, mode="generate")
     n = 0
     for i, doc, r in zip(idxs, docs, res):
@@ -173,6 +181,10 @@ def pipeline(ctx, vh, cases, impl):
         if accepted:
             root = qml.parse_ui(r["ui"])
             cols = [c for c in root.iter("color")]
+            if len(cols) != NCOL:
+                ctx.violation("colour string %r: the document binds it in %d places, the .ui holds %d <color> elements -- a colour is dropped or repeated" % (s, NCOL, len(cols)),
+                              {"case": s, "qml": doc, "impl_output": r["ui"], "theorem_or_correspondence": "S: every bound colour is embedded"})
+                continue
             for c in cols:
                 got = [int(c.find(k).text) for k in ("red", "green", "blue")]
                 alpha = int(c.get("alpha")) if c.get("alpha") is not None else 255
